@@ -124,6 +124,8 @@ def helper_case(case, sess: Session):
             ctl.join(15)
     sess.evaluations += 1
     sess.count("run_parallel_calls")
+    if w >= 2 and n >= 3:
+        sess.sample({**case, "finish_order_observed": list(finished)})
     if stop[0]:
         sess.inconclusive_because("controller could not force a completion order (task never started)")
         return
